@@ -20,7 +20,56 @@ thread_local! {
     };
 }
 
+/// Verification hook: a per-thread script of choices that stands in for the random draw.
+///
+/// While a script is installed on the calling thread, every `fastrand(upper)` call records the `upper` it was asked
+/// for and, if `upper` is non-zero and the script is not exhausted, returns the next scripted choice reduced modulo
+/// `upper` instead of consulting the RNG. Without a script (or with `upper == 0`, or an exhausted script) the real RNG
+/// path runs unchanged.
+#[cfg(metrics_verif)]
+#[doc(hidden)]
+pub mod __verif_script {
+    use std::{cell::RefCell, collections::VecDeque};
+
+    struct Script {
+        choices: VecDeque<usize>,
+        uppers: Vec<usize>,
+    }
+
+    thread_local! {
+        static SCRIPT: RefCell<Option<Script>> = RefCell::new(None);
+    }
+
+    /// Installs a script of choices on the calling thread, replacing any previous one.
+    pub fn install(choices: Vec<usize>) {
+        SCRIPT.with(|s| *s.borrow_mut() = Some(Script { choices: choices.into(), uppers: Vec::new() }));
+    }
+
+    /// Removes the calling thread's script, returning the unused choices and every `upper` that was requested.
+    pub fn take() -> Option<(Vec<usize>, Vec<usize>)> {
+        SCRIPT.with(|s| s.borrow_mut().take().map(|s| (s.choices.into_iter().collect(), s.uppers)))
+    }
+
+    pub(super) fn next_choice(upper: usize) -> Option<usize> {
+        SCRIPT.with(|s| {
+            let mut s = s.borrow_mut();
+            let script = s.as_mut()?;
+            script.uppers.push(upper);
+            if upper == 0 {
+                return None;
+            }
+            script.choices.pop_front().map(|choice| choice % upper)
+        })
+    }
+}
+
 fn fastrand(upper: usize) -> usize {
+    #[cfg(metrics_verif)]
+    {
+        if let Some(choice) = __verif_script::next_choice(upper) {
+            return choice;
+        }
+    }
     FAST_RNG.with(|rng| {
         // SAFETY: We know it's safe to take a mutable reference since we're getting a pointer to a thread-local value,
         // and the reference never outlives the closure executing on this thread.
@@ -45,10 +94,16 @@ impl Reservoir {
     }
 
     fn push(&self, value: f64) {
+        #[cfg(metrics_verif)]
+        metrics::__verif::yield_point(1602);
         let idx = self.count.fetch_add(1, Relaxed);
         if idx < self.values.len() {
+            #[cfg(metrics_verif)]
+            metrics::__verif::yield_point(1603);
             self.values[idx].store(value.to_bits(), Relaxed);
         } else {
+            #[cfg(metrics_verif)]
+            metrics::__verif::yield_point(1603);
             let maybe_idx = fastrand(idx);
             if maybe_idx < self.values.len() {
                 self.values[maybe_idx].store(value.to_bits(), Relaxed);
@@ -57,6 +112,8 @@ impl Reservoir {
     }
 
     fn drain(&self) -> Drain<'_> {
+        #[cfg(metrics_verif)]
+        metrics::__verif::yield_point(1607);
         let unsampled_len = self.count.load(Relaxed);
         let len = if unsampled_len > self.values.len() { self.values.len() } else { unsampled_len };
         Drain { reservoir: self, unsampled_len, len, idx: 0 }
@@ -95,6 +152,8 @@ impl<'a> Iterator for Drain<'a> {
 
     fn next(&mut self) -> Option<Self::Item> {
         if self.idx < self.len {
+            #[cfg(metrics_verif)]
+            metrics::__verif::yield_point(1608);
             let value = f64::from_bits(self.reservoir.values[self.idx].load(Relaxed));
             self.idx += 1;
             Some(value)
@@ -112,6 +171,8 @@ impl ExactSizeIterator for Drain<'_> {
 
 impl<'a> Drop for Drain<'a> {
     fn drop(&mut self) {
+        #[cfg(metrics_verif)]
+        metrics::__verif::yield_point(1609);
         self.reservoir.count.store(0, Release);
     }
 }
@@ -148,7 +209,11 @@ impl AtomicSamplingReservoir {
 
     /// Returns `true` if the reservoir is empty.
     pub fn is_empty(&self) -> bool {
+        #[cfg(metrics_verif)]
+        metrics::__verif::yield_point(1611);
         let use_primary = self.use_primary.load(Acquire);
+        #[cfg(metrics_verif)]
+        metrics::__verif::yield_point(1612);
         if use_primary {
             self.primary.count.load(Relaxed) == 0
         } else {
@@ -158,6 +223,8 @@ impl AtomicSamplingReservoir {
 
     /// Pushes a sample into the reservoir.
     pub fn push(&self, value: f64) {
+        #[cfg(metrics_verif)]
+        metrics::__verif::yield_point(1601);
         let use_primary = self.use_primary.load(Relaxed);
         if use_primary {
             self.primary.push(value);
@@ -173,10 +240,19 @@ impl AtomicSamplingReservoir {
     where
         F: FnMut(Drain<'_>),
     {
+        #[cfg(metrics_verif)]
+        metrics::__verif::yield_point(1604);
         let _guard = self.swap.lock().unwrap();
+        // Dropped (and so reached) immediately before `_guard` unlocks the mutex.
+        #[cfg(metrics_verif)]
+        let _verif_unlock = metrics::__verif::YieldOnDrop(1610);
 
         // Swap the active reservoir.
+        #[cfg(metrics_verif)]
+        metrics::__verif::yield_point(1605);
         let use_primary = self.use_primary.load(Acquire);
+        #[cfg(metrics_verif)]
+        metrics::__verif::yield_point(1606);
         self.use_primary.store(!use_primary, Release);
 
         // Consume the previous reservoir.
